@@ -212,7 +212,7 @@ def _mk_list(op: str):
 
     if op in ("append", "insert", "extend", "setitem", "setslice", "iadd", "add", "init", "remove", "queries"):
         @obligation(prop="C17", name="list_str_" + op, group="list_str_" + op, sites=sites, encodes=ENC_L,
-                    budget={"quick": 200, "thorough": 600},
+                    budget={"quick": 400, "thorough": 800},
                     what="ListProxy.%s vs built-in list of normalised items (StringField strip+upper, strings from a menu with leading/trailing blanks and mixed case, "
                          "n0<=2): what is stored is the normalised form" % op)
         def ob_str(n0: int, ai: int, xi: int, yi: int, idx: int, j: int, kind: int) -> bool:
